@@ -642,3 +642,67 @@ func genBind(r *rand.Rand, id string) *Case {
 }
 
 func init() { generators["bind"] = genBind }
+
+// genSimple (C05): simple queries only; 0, 1 or many statements; result-writer programs mixing
+// good rows, wrong-arity and unencodable rows, Empty, Complete, calls after completion,
+// Written probes and error returns; blank queries (ASCII and Unicode spaces).
+func genSimple(r *rand.Rand, id string) *Case {
+	c := baseCase(id, "simple")
+	in := plainStartup("u")
+	n := 1 + r.Intn(4)
+	for i := 0; i < n; i++ {
+		switch k := r.Intn(20); {
+		case k == 0:
+			blanks := []string{"", " ", "\t\n\v\f\r ", " ", " 　", "   ", "\u0085", "    ", " \xc2", "\xa0", "​", " x "}
+			in = append(in, msgQuery(blanks[r.Intn(len(blanks))])...)
+		case k == 1:
+			in = append(in, msgQuery("#")...)
+		case k == 2:
+			in = append(in, msgQuery("!"+genErrSpec(r, r.Intn(3)))...)
+		default:
+			ns := 1
+			if r.Intn(3) == 0 {
+				ns = 2 + r.Intn(3)
+			}
+			parts := make([]string, ns)
+			for j := range parts {
+				parts[j] = genWriterScript(r, 12)
+			}
+			in = append(in, msgQuery(strings.Join(parts, "|"))...)
+		}
+	}
+	c.In = in
+	c.Cuts = randCuts(r, len(in))
+	return c
+}
+
+// genWriterScript: a statement exercising the result writer state machine.
+func genWriterScript(r *rand.Rand, maxOps int) string {
+	cols, colspec := genCols(r, 3)
+	nops := r.Intn(maxOps + 1)
+	var ops []string
+	for i := 0; i < nops; i++ {
+		var o string
+		switch k := r.Intn(20); {
+		case k < 9:
+			o = genRow(r, cols)
+		case k < 12:
+			o = "c:" + hxs([]string{"SELECT 1", "OK", "", "INSERT 0 2"}[r.Intn(4)])
+		case k < 14:
+			o = "e"
+		default:
+			o = "w"
+		}
+		if r.Intn(4) == 0 && o != "w" {
+			o += "?"
+		}
+		ops = append(ops, o)
+	}
+	ret := "ok"
+	if r.Intn(6) == 0 {
+		ret = "E" + genErrSpec(r, r.Intn(3))
+	}
+	return colspec + "//" + strings.Join(ops, ";") + "/" + ret
+}
+
+func init() { generators["simple"] = genSimple }
